@@ -48,6 +48,18 @@ Definition zfact (order : nat) (x : Z) : res Z :=
   if Z.ltb x 0 then Err "FactorialOfNegativeNumber"
   else Ok (zfact_aux (Z.to_nat x) x (Z.of_nat order)).
 
+Definition upper_ascii (c : ascii) : ascii :=
+  let n := Ascii.nat_of_ascii c in
+  if (Nat.leb 97 n && Nat.leb n 122)%bool then Ascii.ascii_of_nat (n - 32) else c.
+Definition lower_ascii (c : ascii) : ascii :=
+  let n := Ascii.nat_of_ascii c in
+  if (Nat.leb 65 n && Nat.leb n 90)%bool then Ascii.ascii_of_nat (n + 32) else c.
+Fixpoint map_ascii (f : ascii -> ascii) (s : string) : string :=
+  match s with
+  | EmptyString => EmptyString
+  | String c r => String (f c) (map_ascii f r)
+  end.
+
 Definition zffi (name : string) (args : list (value Z)) : res (value Z) :=
   if String.eqb name "len" then
     match args with [VList l] => Ok (VQ (Z.of_nat (length l))) | _ => Wrong end
@@ -61,6 +73,20 @@ Definition zffi (name : string) (args : list (value Z)) : res (value Z) :=
     match args with [x; VList l] => Ok (VList (l ++ [x])%list) | _ => Wrong end
   else if String.eqb name "str_length" then
     match args with [VStr s] => Ok (VQ (Z.of_nat (String.length s))) | _ => Wrong end
+  else if String.eqb name "str_slice" then
+    (* input.get(start..end).unwrap_or_default(), ASCII strings; `as usize` saturates at 0 *)
+    match args with
+    | [VQ a; VQ b; VStr s] =>
+        let a' := Z.to_nat a in
+        let b' := Z.to_nat b in
+        if (Nat.leb a' b' && Nat.leb b' (String.length s))%bool
+        then Ok (VStr (String.substring a' (b' - a') s)) else Ok (VStr "")
+    | _ => Wrong
+    end
+  else if String.eqb name "uppercase" then
+    match args with [VStr s] => Ok (VStr (map_ascii upper_ascii s)) | _ => Wrong end
+  else if String.eqb name "lowercase" then
+    match args with [VStr s] => Ok (VStr (map_ascii lower_ascii s)) | _ => Wrong end
   else Wrong.
 
 Definition zops0 : ops Z :=
